@@ -34,6 +34,7 @@ def run(ck, ix, tier):
     memo.rule_dimensional_equivalents(ck, ix)
     memo.rule_disk_cache_hit(ck, ix)
     memo.rule_context_overlay(ck, ix)
+    memo.rule_overlay_not_reused(ck, ix)
     memo.rule_base_units_cache(ck, ix)
     memo.rule_group_members(ck, ix)
     memo.rule_system_members(ck, ix)
